@@ -627,7 +627,12 @@ def check_case(ctx, case, collect=None):
                     y = jio.load_json(os.path.join(d, 'f'), gz=case['gz'], verbose=False, full_output=bool(case.get('full')))
                     s = jio.create_json_string(arg, indent=case['indent'])
                 elif tr == 'pickle':
-                    y = pickle.loads(pickle.dumps(x))
+                    if case['seed'] % 2:
+                        # the library's own pickle transport
+                        pe.misc.dump_object(x, 'obj', path=d)
+                        y = pe.misc.load_object(os.path.join(d, 'obj.p'))
+                    else:
+                        y = pickle.loads(pickle.dumps(x))
                     s = None
                 else:
                     import pandas as pd
